@@ -3,6 +3,30 @@ import json, os
 VERIF = os.path.dirname(os.path.dirname(os.path.abspath(__file__)))
 
 CLAIMED = {
+    "C02": ("Lean 4 theorems (list-length invariant of the evaluator, decision filter, fp/fn/rq/pq definitions, mean/variance, ranges) + model/implementation correspondence + independent bookkeeping oracle",
+            "For every value type, order, metric selection, decision metric/threshold and every list of per-instance metric dictionaries (i.e. the output of every matcher) tp = number of passing instances and every list has tp entries; for every directly constructed result fp/fn/rq/sq/pq obey their definitions and ranges. The model is tied to the code by running both on generated pairs x input types x matchers x decision settings and on directly constructed results.",
+            "Trusted: Lean kernel + 3 standard axioms; harness; sq_std is compared as sqrt of the model's exact variance within 1e-9; ASSD aggregates recomputed in float64 from the model's exact squared distances.",
+            "DESIGN.md §7 C02"),
+    "C03": ("Lean 4 theorems (fold invariants over the sorted candidate list for an arbitrary total preorder: total, functional, injective, sound, maximal, best-first, monotone, sort) + correspondence + independent validity oracle",
+            "The threshold matcher's loop is proved never to raise, functional, injective without many-to-one, sound, maximal, best-first and monotone in the threshold for every candidate list, score order, threshold and option; the executable model equals the real matcher's label map on generated/enumerated overlap graphs (exact rational scores, exact-threshold hits, many-to-one).",
+            "Trusted: Lean kernel + 3 standard axioms; harness; ASSD scores are compared in float64 (cases within 1e-9 of a threshold or of a competing score are skipped and counted); the candidate discovery (pair encoding) is compared, its injectivity theorem is part of C09.",
+            "DESIGN.md §7 C03"),
+    "C04": ("Lean 4 theorems (the relabelling is a pointwise finite map that never wraps below 2^64; foreground kept, matched label, fresh labels distinct and outside the reference labels, partition preserved) + correspondence + independent partition oracle",
+            "For every dtype width, label map, functional assignment and any number of instances below 2^64 the relabelled prediction is the pointwise image under a map with the stated properties; the model equals map_instance_labels on real-matcher and random label maps over uint8/16/32/64 incl. labels at the dtype maximum.",
+            "Trusted: Lean kernel + 3 standard axioms; harness; numpy fancy indexing (look-up table) as modelled; labels bounded by 2^22 in uint32/64 runs (table memory).",
+            "DESIGN.md §7 C04"),
+    "C08": ("Lean 4 theorems (scenario decision table stated outright, zero-TP values for every handler table and every count, early exit, handler irrelevance for tp>0) + correspondence + independent handler oracle",
+            "For all instance counts and all handler tables the zero-TP aggregate is the handler's value for the realised scenario and the std is the empty-list value; the model equals the real evaluator on random handlers x scenarios x the three input types.",
+            "Trusted: Lean kernel + 3 standard axioms; harness.",
+            "DESIGN.md §7 C08"),
+    "C13": ("Lean 4 theorems (global value is a function of the two binarised maps; handler dispatch on empty sides stated outright) + correspondence + independent oracle (metric of binarised maps, handler table)",
+            "global_bin_<m> of the model depends only on the binarised arrays; empty prediction/reference/both give the handler's EMPTY_PRED/EMPTY_REF/NO_INSTANCES values; the real evaluator is compared on random pairs, asymmetric handlers and several instance labellings of one foreground.",
+            "Trusted: Lean kernel + 3 standard axioms; harness; ASSD global values compared within 1e-9 against a brute-force border distance.",
+            "DESIGN.md §7 C13"),
+    "C14": ("Lean 4 theorems (loop invariants of the merge pass for an arbitrary total preorder and combined-score function: functional, founder eligible, strict-improvement merges, score bookkeeping, final quality) + correspondence + independent replay oracle",
+            "Every step of the merge loop either leaves the state, founds a reference with an eligible candidate, or merges on strict improvement in the metric's direction; recorded scores equal the combined score of the assigned predictions and finally meet the threshold and the founder's score. The model equals MaximizeMergeMatching's label map on fragment-covered references for IoU/Dice/ASSD.",
+            "Trusted: Lean kernel + 3 standard axioms; harness; ASSD order evaluated in float64 (near-ties skipped and counted).",
+            "DESIGN.md §7 C14"),
     # id: (technique, level text, level note, design ref)
     "C06": ("Lean 4 theorems (Finset-free list/Rat arithmetic: dice/iou/rvd definitions, dice = 2iou/(1+iou), symmetry, unit interval, =1 iff identical, label-list = union) + model/implementation correspondence",
             "Theorems about the executable model of the metric formulas and of label selection hold for every pair of flat arrays and every selection; the model is tied to the code by running both on generated, enumerated and corpus inputs with exact (correctly-rounded quotient) comparison.",
